@@ -323,8 +323,8 @@ func streamC03(h *H) {
 			extra := 8
 			if h.Thorough() {
 				extra = n / 7 // every 7th byte on average
-				if extra > 600 {
-					extra = 600
+				if extra > 250 {
+					extra = 250
 				}
 			}
 			for i := 0; i < extra; i++ {
